@@ -281,12 +281,14 @@ pub struct DelayRetune {
     /// delay in force before the mid retune
     d_eff: usize,
     mid: Option<(usize, usize)>,
+    /// set_delay() values applied right before the mid value, without any work() between
+    mid_pre: Vec<usize>,
     retuned: bool,
     forwarded: usize,
     moved: usize,
 }
 impl DelayRetune {
-    pub fn new(src: ReadStream<u8>, d0: usize, early: &[usize], mid: Option<(usize, usize)>) -> (Self, ReadStream<u8>) {
+    pub fn new(src: ReadStream<u8>, d0: usize, early: &[usize], mid: Option<(usize, usize)>, mid_pre: &[usize]) -> (Self, ReadStream<u8>) {
         let (s1w, s1r) = rustradio::stream::new_stream::<u8>();
         let (mut inner, s2r) = rustradio::delay::Delay::new(s1r, d0);
         let mut d_eff = d0;
@@ -296,7 +298,7 @@ impl DelayRetune {
         }
         let (dst, out) = rustradio::stream::new_stream::<u8>();
         let cap1 = s1w.free();
-        (Self { src, dst, inner, s1w, s2r, cap1, d_eff, mid, retuned: false, forwarded: 0, moved: 0 }, out)
+        (Self { src, dst, inner, s1w, s2r, cap1, d_eff, mid, mid_pre: mid_pre.to_vec(), retuned: false, forwarded: 0, moved: 0 }, out)
     }
 }
 impl rustradio::block::BlockEOF for DelayRetune {
@@ -323,6 +325,9 @@ impl Block for DelayRetune {
         // retune at the agreed stream position
         if let (false, Some((at, d))) = (self.retuned, self.mid) {
             if self.forwarded == at && self.s1w.free() == self.cap1 && self.moved + self.s2r.verif_available() == self.d_eff + at {
+                for p in &self.mid_pre {
+                    self.inner.set_delay(*p);
+                }
                 self.inner.set_delay(d);
                 self.retuned = true;
                 progress = true;
